@@ -144,6 +144,40 @@ c03_queries_value_len!(c03_queries_value_len_3, 3);
 // @ob id=C03 also=C06 tier=quick req=1 to=900 fs=1 name=c03_queries_value_len_6 funcs="Queries::read_from,Queries::parse,Table::from_bytes" bounds="6 value bytes for 2 queries of one 2-byte element (one surplus row)" sym="all value bytes, node digests" enum="length of the value section" desc="a value section with a surplus row is rejected"
 c03_queries_value_len!(c03_queries_value_len_6, 6);
 
+
+// sections of the out-of-domain frame that hold MORE values than the AIR's shape consumes are rejected (the surplus values would be
+// carried by the proof without being absorbed into the coin or checked against anything)
+// @ob id=C03 also=C04,C06 tier=quick req=1 to=900 fs=1 funcs="OodFrame::read_from,OodFrame::parse" bounds="main width 1, no aux; evaluation section of 2 elements where 1 is expected; trace-state section of 3 elements where 2 are expected" sym="all element bytes, which section carries the surplus" desc="an OOD frame with a surplus constraint evaluation or a surplus trace state is rejected"
+#[kani::proof]
+#[kani::unwind(16)]
+#[kani::stub(alloc::fmt::format, nofmt)]
+fn c03_ood_surplus_values_rejected() {
+    if kani::any() {
+        // trace states [5][2][2 elements]; lagrange [1][0]; evaluations [4][2 elements]
+        let mut bytes: [u8; 2 + 5 + 2 + 1 + 2 + 4] = kani::any();
+        bytes[0] = 5; bytes[1] = 0; bytes[2] = 2;
+        bytes[7] = 1; bytes[8] = 0; bytes[9] = 0;
+        bytes[10] = 4; bytes[11] = 0;
+        let mut r = SliceReader::new(&bytes);
+        let f = OodFrame::read_from(&mut r).unwrap();
+        let p = f.parse::<T>(1, 0, 1);
+        assert!(p.is_err());
+        core::mem::forget(p);
+    } else {
+        // trace states [7][2][3 elements]; lagrange [1][0]; evaluations [2][1 element]
+        let mut bytes: [u8; 2 + 7 + 2 + 1 + 2 + 2] = kani::any();
+        bytes[0] = 7; bytes[1] = 0; bytes[2] = 2;
+        bytes[9] = 1; bytes[10] = 0; bytes[11] = 0;
+        bytes[12] = 2; bytes[13] = 0;
+        let mut r = SliceReader::new(&bytes);
+        let f = OodFrame::read_from(&mut r).unwrap();
+        let p = f.parse::<T>(1, 0, 1);
+        assert!(p.is_err());
+        core::mem::forget(p);
+    }
+    kani::cover!(true);
+}
+
 // @ob id=C03 tier=quick req=1 to=600 expect=fail desc="vacuity twin: an accepted commitments parse reaches the comparison"
 #[kani::proof]
 #[kani::unwind(28)]
